@@ -13,7 +13,7 @@ LEVEL_TEXT = ('seeded exploration of call orders: dependency-respecting random p
               'several origins, named sets, 1-3 logical files, header ids 0..65 chars, sequence numbers up to 10 digits; '
               'record-order automaton on the decoded file')
 LEVEL_NOTE = 'trusted: sim/rp66.py; objects matched to the model by position in their set; sampling of call orders'
-TIERS = {'quick': {'cases': 1500, 'wall': 40}, 'thorough': {'cases': 300000, 'wall': 780}}
+TIERS = {'quick': {'cases': 5000, 'wall': 40}, 'thorough': {'cases': 300000, 'wall': 780}}
 RULE = ('case = seeded specification whose add_* calls are randomly permuted subject to reference dependencies; non-trivial = the '
         'defining origin was not the first object added to its logical file, or there are >= 2 logical files / origins; '
         'distinct = case digest (includes the permutation)')
